@@ -50,7 +50,17 @@ PLAN = {
               "recomputes, from the pre-step store, the power of the DISTINCT registered oracles whose votes for exactly that content were accepted and requires 100*S >= 66*recorded total; recorded total >= power of online oracles after every step; "
               "accepted vote => online registered oracle. non-trivial = an event observed with >= 2 voters of unequal stake, or a stake/membership change while an attestation was open"),
         assumptions=["claims enter through the MsgClaim handler with the unpacked claim; the block-level signer clause is checked by TestC02Signer"],
-        quick=[dict(test="TestC02", cases=1600, shards=8, timeout=900)],
-        thorough=[dict(test="TestC02", cases=48000, shards=16, timeout=3400, shrink=120)],
+        quick=[dict(test="TestC02", cases=1600, shards=8, timeout=900), dict(test="TestC02Signer", cases=96, shards=8, timeout=900)],
+        thorough=[dict(test="TestC02", cases=48000, shards=14, timeout=3400, shrink=120), dict(test="TestC02Signer", cases=2000, shards=2, timeout=3400)],
+    ),
+    "C12": dict(
+        level="exploration",
+        rule=("(A) generated oracle sets (0..12, sometimes 100 members), batches (0..8/100 transfers, amounts up to 2^256-1) and bridge calls (0..4 tokens, data/memo 0..2000 bytes) with nonces/timeouts/event nonces/powers over the whole uint64 range "
+              "(boundary biased: 2^63-1, 2^63, 2^64-1), gravity ids 1..32 bytes, eth and tron address forms: fxcore's checkpoint (go-ethereum-ABI variant and gotron-ABI variant) must equal keccak(abi.encode(..)) from the independent encoder; changing gravity id or nonce must change it. "
+              "non-trivial = object with a dynamic element. (B) on the real keeper: two stored objects per kind, confirmations built from {own, other oracle's, stranger} key x {right, other object's, other gravity id's, other chain prefix's} digest x bridger x external-address field x signature surgery "
+              "(malleated s, v+27, v=2, 64/66 bytes, empty, bit flip) x missing object x repetition; accepted <=> reference verification; stored confirmations per (object, oracle) <= 1. non-trivial = any not-all-right combination"),
+        assumptions=["the contract side is a transcription of FxBridgeLogic.sol's abi.encode argument lists (no Solidity compiler in the sandbox)", "keccak and secp256k1 recovery from go-ethereum are trusted"],
+        quick=[dict(test="TestC12A", cases=9000, shards=6, timeout=600), dict(test="TestC12B", cases=1500, shards=10, timeout=600)],
+        thorough=[dict(test="TestC12A", cases=600000, shards=8, timeout=3000, shrink=120), dict(test="TestC12B", cases=60000, shards=8, timeout=3000, shrink=120)],
     ),
 }
